@@ -143,6 +143,21 @@ def ArrV.binaryOp (T : Tables) (op : BinOp) (lhs rhs : ArrV) : Res ArrV := do
           | .error e => .error e)
   ArrV.applyBin T op lhs rhs'
 
+/-- What `_binary_op` settles before any value is touched: the numpy kernel it will call and the factor the right
+    operand's values are multiplied by first (`converted` = they went through `_array * ratio`). The harness uses
+    it to evaluate operands holding non-finite values (nan, +-inf), which the rational value domain cannot hold. -/
+structure BinPlan where
+  npName : String
+  ratio : Rat
+  converted : Bool
+  deriving Repr, DecidableEq
+
+def binaryPlan (op : BinOp) (lu ru : U) : Res BinPlan :=
+  if ru.same lu then .ok ⟨op.npName, 1, false⟩
+  else if ru.convertible lu then .ok ⟨op.npName, U.ratio ru lu, true⟩
+  else if op.strict then .error .dimErr
+  else .ok ⟨op.npName, 1, false⟩
+
 /-! ### unary / scalar forms -/
 
 inductive UnOp | neg | lnot | sqrt | square | cbrt | reciprocal | abs
